@@ -174,6 +174,26 @@ func genConfig(r *kernel.Rand, o GenOpts, nUE int) scn.Config {
 			}
 		}
 	}
+	if !o.Sessions {
+		// the carry placement above may have pushed the MSIN back into exhaustion: the population must
+		// still fit (the statement of C16 only speaks of populations the MSIN digits can accommodate)
+		for guard := 0; guard < 20; guard++ {
+			v, _ := strconv.ParseUint(string(msin), 10, 64)
+			max := uint64(1)
+			for i := 0; i < n; i++ {
+				max *= 10
+			}
+			if v+uint64(nUE) <= max {
+				break
+			}
+			for i := 0; i < n; i++ { // lower the most significant non-zero digit
+				if msin[i] != '0' {
+					msin[i]--
+					break
+				}
+			}
+		}
+	}
 	c.IMSI = c.MCC + c.MNC + string(msin)
 	c.K = hexCase(r, boundary128(r))
 	opc, op := boundary128(r), boundary128(r)
